@@ -9,6 +9,7 @@
 package main
 
 import (
+	"syscall"
 	"bytes"
 	"encoding/json"
 	"fmt"
@@ -146,7 +147,11 @@ func main() {
 // source is seeded deterministically (the repository uses it for the key seed
 // of a fresh database).
 func simEnv() []string {
-	return append(os.Environ(), "GODEBUG=randautoseed=0")
+	// asyncpreemptoff: goroutines of a run switch only where the scheduler or a
+	// blocking operation makes them (signal-based preemption reordered arrivals
+	// under load and, in go1.26.8, now and then left a preempted goroutine of a
+	// synctest bubble runnable for ever while the driver sat in synctest.Wait)
+	return append(os.Environ(), "GODEBUG=randautoseed=0,asyncpreemptoff=1")
 }
 
 func build(work string, race bool) {
@@ -394,8 +399,14 @@ func check(id, tier string) {
 			case err := <-done:
 				res[w].err = err
 			case <-time.After(budget + shrinkSlack + 60*time.Second):
-				cmd.Process.Kill()
-				<-done
+				// goroutine stacks first (diagnosis of a hang), then the kill
+				cmd.Process.Signal(syscall.SIGQUIT)
+				select {
+				case <-done:
+				case <-time.After(5 * time.Second):
+					cmd.Process.Kill()
+					<-done
+				}
 				res[w].killed = true
 			}
 			res[w].stderr = stderr.String()
@@ -413,7 +424,7 @@ func check(id, tier string) {
 	for w := range res {
 		r := &res[w]
 		if r.killed {
-			trouble("worker %d exceeded its watchdog\n%s", w, tail(r.stderr, 40))
+			trouble("worker %d exceeded its watchdog\n%s", w, tail(r.stderr, 400))
 		}
 		if r.out == nil {
 			p := firstPanic(r.stderr)
